@@ -139,6 +139,11 @@ class Scenario:
         self.closer = ""
         if self.profile in ("c01", "c12") and not self.limit_who and not self.frame_limit and not any(o["limit"].values()) and rng.random() < 0.3:
             self.closer = rng.choice(["C", "S"])
+            # (hundreds of thousands of queued one-octet frames take seconds of virtual time to drain, 10 microseconds a piece: the
+            # closing-handshake timers are C05's and C17's business and are switched off here - found as a false alarm, DESIGN 15)
+            sopts["closeHandshakeTimeout"] = 0
+            copts["closeHandshakeTimeout"] = 0
+            copts["serverConnectionDropTimeout"] = 0
         self.pair = wsx.Pair(sopts=sopts, copts=copts)
         self.only_who = None
         self.no_net = False
